@@ -27,87 +27,99 @@ func (e *env) invariant(s state, dseq uint64, no, np int) []clause {
 	var cs []clause
 	add := func(label string, ok bool) { cs = append(cs, clause{label, ok}) }
 	d, dok := s.dep[dseq]
-	g, gok := s.grp[dseq]
 	dacct, daok := s.acct[dtypes.EscrowAccountForDeployment(did(dseq))]
-	add("W deployment, its group and its escrow account exist together", verif_And(dok == gok, dok == daok))
+	ng := e.groupsOf(dseq)
+	gok := true
+	anyGroup := false
+	for g := 1; g <= ng; g++ {
+		_, ok := s.grp[gk{dseq, g}]
+		gok = gok && ok
+		anyGroup = anyGroup || ok
+	}
+	add("W deployment, its group and its escrow account exist together", verif_And(dok == gok, dok == daok, dok == anyGroup))
 	if !dok || !gok || !daok {
 		// nothing may exist beneath an absent deployment
-		for o := 1; o <= no+1; o++ {
-			_, ok := s.ord[oid(dseq, o)]
-			add("W no order without its deployment", !ok)
+		for g := 1; g <= ng; g++ {
+			for o := 1; o <= e.slots(g, no)+1; o++ {
+				_, ok := s.ord[oidG(dseq, g, o)]
+				add("W no order without its deployment", !ok)
+			}
 		}
 		return cs
 	}
-	add("W enum ranges", verif_And(inRange(int32(d.State), 1, 2), inRange(int32(g.State), 1, 4), inRange(int32(dacct.State), 1, 3)))
+	add("W enum ranges", verif_And(inRange(int32(d.State), 1, 2), inRange(int32(dacct.State), 1, 3)))
 	dActive := d.State == dtypes.DeploymentActive
-	gOpen := g.State == dtypes.GroupOpen
 	// C05 M3
 	add("C05 deployment active iff its escrow account is open", verif_Iff(dActive, dacct.State == etypes.AccountOpen))
 	add("C03 closed or overdrawn account has zero balance", verif_Implies(dacct.State != etypes.AccountOpen, dacct.Balance.Amount.IsZero()))
-	add("W group insufficient-funds only under an overdrawn account", verif_Implies(g.State == dtypes.GroupInsufficientFunds, dacct.State == etypes.AccountOverdrawn))
-	// C04 L5 (group part)
-	add("C04 closed deployment has no open or paused group", verif_Implies(!dActive, verif_And(g.State != dtypes.GroupOpen, g.State != dtypes.GroupPaused)))
-	// orders: contiguous 1..n
-	n := 0
-	for o := 1; o <= no+1; o++ {
-		if _, ok := s.ord[oid(dseq, o)]; ok {
-			add("W orders of a group are numbered contiguously", n == o-1)
-			n = o
-		}
-	}
-	add("W a group always has a first order", n >= 1)
-	nonClosed := 0
-	_ = nonClosed
-	cntNonClosed := sdk.ZeroInt()
 	one := sdk.OneInt()
-	for o := 1; o <= n; o++ {
-		ord := s.ord[oid(dseq, o)]
-		add("W enum ranges", inRange(int32(ord.State), 1, 3))
-		cntNonClosed = cntNonClosed.Add(verif_IteInt(ord.State != mtypes.OrderClosed, one, sdk.ZeroInt()))
-		if o < n {
-			add("W only the newest order of a group can be non-closed", ord.State == mtypes.OrderClosed)
-		}
-		add("C04 closed deployment has no non-closed order", verif_Implies(!dActive, ord.State == mtypes.OrderClosed))
-		add("C04 order price is the group's price", ord.Spec.Price().Amount.Equal(g.GroupSpec.Price().Amount))
-		activeLeases := sdk.ZeroInt()
-		for p := 1; p <= np; p++ {
-			b, bok := s.bid[bidid(dseq, o, p)]
-			l, lok := s.lease[lid(dseq, o, p)]
-			bacct, baok := s.acct[mtypes.EscrowAccountForBid(bidid(dseq, o, p))]
-			pay, pok := s.pay[leasePayKey(lid(dseq, o, p))]
-			add("W bid and its deposit account exist together; lease and its payment exist together; lease needs its bid", verif_And(bok == baok, lok == pok, !lok || bok))
-			if !bok || !baok {
-				continue
+	for g := 1; g <= ng; g++ {
+		grp := s.grp[gk{dseq, g}]
+		gno := e.slots(g, no)
+		add("W enum ranges", inRange(int32(grp.State), 1, 4))
+		gOpen := grp.State == dtypes.GroupOpen
+		add("W group insufficient-funds only under an overdrawn account", verif_Implies(grp.State == dtypes.GroupInsufficientFunds, dacct.State == etypes.AccountOverdrawn))
+		// C04 L5 (group part)
+		add("C04 closed deployment has no open or paused group", verif_Implies(!dActive, verif_And(grp.State != dtypes.GroupOpen, grp.State != dtypes.GroupPaused)))
+		// orders: contiguous 1..n
+		n := 0
+		for o := 1; o <= gno+1; o++ {
+			if _, ok := s.ord[oidG(dseq, g, o)]; ok {
+				add("W orders of a group are numbered contiguously", n == o-1)
+				n = o
 			}
-			add("W enum ranges", verif_And(inRange(int32(b.State), 1, 4), inRange(int32(bacct.State), 1, 2)))
-			add("C04 open bid implies open order", verif_Implies(b.State == mtypes.BidOpen, ord.State == mtypes.OrderOpen))
-			add("C05 bid open or matched iff its deposit account is open", verif_Iff(verif_Or(b.State == mtypes.BidOpen, b.State == mtypes.BidActive), bacct.State == etypes.AccountOpen))
-			add("C03 closed or overdrawn account has zero balance", verif_Implies(bacct.State != etypes.AccountOpen, bacct.Balance.Amount.IsZero()))
-			add("C04 closed deployment has no open or matched bid", verif_Implies(!dActive, verif_And(b.State != mtypes.BidOpen, b.State != mtypes.BidActive)))
-			add("C04 bid price within the order's maximum", verif_And(b.Price.Amount.IsPositive(), b.Price.Amount.LTE(ord.Spec.Price().Amount)))
-			add("W a matched bid has a lease; an open or lost bid has none", verif_And(verif_Implies(b.State == mtypes.BidActive, lok), verif_Implies(verif_Or(b.State == mtypes.BidOpen, b.State == mtypes.BidLost), !lok)))
-			if !lok || !pok {
-				continue
-			}
-			add("W enum ranges", verif_And(inRange(int32(l.State), 1, 3), inRange(int32(pay.State), 1, 3)))
-			lActive := l.State == mtypes.LeaseActive
-			activeLeases = activeLeases.Add(verif_IteInt(lActive, one, sdk.ZeroInt()))
-			add("C04 active lease implies matched bid, matched order, open group, active deployment",
-				verif_Implies(lActive, verif_And(b.State == mtypes.BidActive, ord.State == mtypes.OrderActive, gOpen, dActive)))
-			add("W matched bid implies active lease", verif_Implies(b.State == mtypes.BidActive, lActive))
-			add("C04 lease price equals its bid's price and is within the order's maximum", verif_And(l.Price.Amount.Equal(b.Price.Amount), l.Price.Amount.LTE(ord.Spec.Price().Amount)))
-			add("C05 lease active iff its payment is open", verif_Iff(lActive, pay.State == etypes.PaymentOpen))
-			add("C03 payment open only while its account is open", verif_Implies(pay.State == etypes.PaymentOpen, dacct.State == etypes.AccountOpen))
-			add("C03 overdrawn payment only under an overdrawn account", verif_Implies(pay.State == etypes.PaymentOverdrawn, dacct.State == etypes.AccountOverdrawn))
-			add("C03 closed or overdrawn payment has zero balance", verif_Implies(pay.State != etypes.PaymentOpen, pay.Balance.Amount.IsZero()))
-			add("W payment rate is the lease price and positive; payment owner is the provider", verif_And(pay.Rate.Amount.Equal(l.Price.Amount), pay.Rate.Amount.IsPositive(), pay.Owner == l.LeaseID.Provider))
-			add("W lease insufficient-funds only with an overdrawn payment", verif_Implies(l.State == mtypes.LeaseInsufficientFunds, pay.State == etypes.PaymentOverdrawn))
 		}
-		add("C04 order matched iff it has exactly one active lease", verif_And(verif_Iff(ord.State == mtypes.OrderActive, activeLeases.Equal(one)), activeLeases.LTE(one)))
+		add("W a group always has a first order", n >= 1)
+		cntNonClosed := sdk.ZeroInt()
+		for o := 1; o <= n; o++ {
+			ord := s.ord[oidG(dseq, g, o)]
+			add("W enum ranges", inRange(int32(ord.State), 1, 3))
+			cntNonClosed = cntNonClosed.Add(verif_IteInt(ord.State != mtypes.OrderClosed, one, sdk.ZeroInt()))
+			if o < n {
+				add("W only the newest order of a group can be non-closed", ord.State == mtypes.OrderClosed)
+			}
+			add("C04 closed deployment has no non-closed order", verif_Implies(!dActive, ord.State == mtypes.OrderClosed))
+			add("C04 order price is the group's price", ord.Spec.Price().Amount.Equal(grp.GroupSpec.Price().Amount))
+			activeLeases := sdk.ZeroInt()
+			for p := 1; p <= np; p++ {
+				b, bok := s.bid[bididG(dseq, g, o, p)]
+				l, lok := s.lease[lidG(dseq, g, o, p)]
+				bacct, baok := s.acct[mtypes.EscrowAccountForBid(bididG(dseq, g, o, p))]
+				pay, pok := s.pay[leasePayKey(lidG(dseq, g, o, p))]
+				add("W bid and its deposit account exist together; lease and its payment exist together; lease needs its bid", verif_And(bok == baok, lok == pok, !lok || bok))
+				if !bok || !baok {
+					continue
+				}
+				add("W enum ranges", verif_And(inRange(int32(b.State), 1, 4), inRange(int32(bacct.State), 1, 2)))
+				add("C04 open bid implies open order", verif_Implies(b.State == mtypes.BidOpen, ord.State == mtypes.OrderOpen))
+				add("C05 bid open or matched iff its deposit account is open", verif_Iff(verif_Or(b.State == mtypes.BidOpen, b.State == mtypes.BidActive), bacct.State == etypes.AccountOpen))
+				add("C03 closed or overdrawn account has zero balance", verif_Implies(bacct.State != etypes.AccountOpen, bacct.Balance.Amount.IsZero()))
+				add("C04 closed deployment has no open or matched bid", verif_Implies(!dActive, verif_And(b.State != mtypes.BidOpen, b.State != mtypes.BidActive)))
+				add("C04 bid price within the order's maximum", verif_And(b.Price.Amount.IsPositive(), b.Price.Amount.LTE(ord.Spec.Price().Amount)))
+				add("W a matched bid has a lease; an open or lost bid has none", verif_And(verif_Implies(b.State == mtypes.BidActive, lok), verif_Implies(verif_Or(b.State == mtypes.BidOpen, b.State == mtypes.BidLost), !lok)))
+				if !lok || !pok {
+					continue
+				}
+				add("W enum ranges", verif_And(inRange(int32(l.State), 1, 3), inRange(int32(pay.State), 1, 3)))
+				lActive := l.State == mtypes.LeaseActive
+				activeLeases = activeLeases.Add(verif_IteInt(lActive, one, sdk.ZeroInt()))
+				add("C04 active lease implies matched bid, matched order, open group, active deployment",
+					verif_Implies(lActive, verif_And(b.State == mtypes.BidActive, ord.State == mtypes.OrderActive, gOpen, dActive)))
+				add("W matched bid implies active lease", verif_Implies(b.State == mtypes.BidActive, lActive))
+				add("C04 lease price equals its bid's price and is within the order's maximum", verif_And(l.Price.Amount.Equal(b.Price.Amount), l.Price.Amount.LTE(ord.Spec.Price().Amount)))
+				add("C05 lease active iff its payment is open", verif_Iff(lActive, pay.State == etypes.PaymentOpen))
+				add("C03 payment open only while its account is open", verif_Implies(pay.State == etypes.PaymentOpen, dacct.State == etypes.AccountOpen))
+				add("C03 overdrawn payment only under an overdrawn account", verif_Implies(pay.State == etypes.PaymentOverdrawn, dacct.State == etypes.AccountOverdrawn))
+				add("C03 closed or overdrawn payment has zero balance", verif_Implies(pay.State != etypes.PaymentOpen, pay.Balance.Amount.IsZero()))
+				add("W payment rate is the lease price and positive; payment owner is the provider", verif_And(pay.Rate.Amount.Equal(l.Price.Amount), pay.Rate.Amount.IsPositive(), pay.Owner == l.LeaseID.Provider))
+				add("W lease insufficient-funds only with an overdrawn payment", verif_Implies(l.State == mtypes.LeaseInsufficientFunds, pay.State == etypes.PaymentOverdrawn))
+			}
+			add("C04 order matched iff it has exactly one active lease", verif_And(verif_Iff(ord.State == mtypes.OrderActive, activeLeases.Equal(one)), activeLeases.LTE(one)))
+		}
+		add("C04 a group has at most one non-closed order", cntNonClosed.LTE(one))
+		add("C04 an open group of an active deployment has exactly one non-closed order", verif_Implies(verif_And(gOpen, dActive), cntNonClosed.Equal(one)))
+		add("C04 a group that is not open has no non-closed order", verif_Implies(!gOpen, cntNonClosed.IsZero()))
 	}
-	add("C04 a group has at most one non-closed order", cntNonClosed.LTE(one))
-	add("C04 an open group of an active deployment has exactly one non-closed order", verif_Implies(verif_And(gOpen, dActive), cntNonClosed.Equal(one)))
-	add("C04 a group that is not open has no non-closed order", verif_Implies(!gOpen, cntNonClosed.IsZero()))
 	return cs
 }
 
